@@ -261,7 +261,18 @@ class ScopeGen:
             if d.kind == "const":
                 em.emit(("pub " if d.pub else "") + "const ")
                 d.offset, d.file = em.pos(), m.idx
-                em.emit(d.name + " = " + r.choice(["1", '"s"', "2.5"]) + "\n")
+                em.emit(d.name + " = ")
+                # some constants mention a constructor or a function of the module (locally declared ones only: what an
+                # imported name means is the subject of the import streams)
+                refs = [(n, dd) for n, dd in self.module_values(m).items()
+                        if dd.module == m.idx and ((dd.kind == "variant" and not dd.fields) or dd.kind == "fn") and n != d.name]
+                if refs and r.random() < 0.35:
+                    n, dd = r.choice(refs)
+                    em.emit("#(" + r.choice(["1", '"ß💣"']) + ", ")
+                    self.new_occ(em, m, n, ("M", dd), "constructor" if dd.kind == "variant" else "value", None)
+                    em.emit(")\n")
+                else:
+                    em.emit(r.choice(["1", '"s"', "2.5"]) + "\n")
             elif d.kind == "type":
                 em.emit(("pub " if d.pub else "") + "type ")
                 d.offset, d.file = em.pos(), m.idx
@@ -492,9 +503,25 @@ class ScopeGen:
     def expr(self, em, ctx, env, depth):
         r = self.r
         m = ctx["m"]
-        k = r.randrange(14 if depth < 4 else 4)
+        k = r.randrange(15 if depth < 4 else 4)
         if k in (0, 1, 2):
             return self.var(em, ctx, env)
+        if k == 14:
+            # a prefix operator over a name or over a call of names (the operand is not lowered on its own: the name
+            # is resolved in the scope of the enclosing expression)
+            # (only `!`: a `-` at the start of a statement would continue the previous expression as a subtraction)
+            em.emit("!")
+            f = self.var(em, ctx, env)
+            if r.random() < 0.4:
+                em.emit("(")
+                args = []
+                for j in range(r.randrange(0, 3)):
+                    if j:
+                        em.emit(", ")
+                    args.append(self.var(em, ctx, env))
+                em.emit(")")
+                return f"(node (call {f} {' '.join(args)}))"
+            return f"(node {f})"
         if k == 3:
             em.emit(r.choice(["1", '"s"', "2.5"]))
             return "(leaf)"
